@@ -21,6 +21,45 @@ CHECKS = {
     ),
 }
 
+CHECKS.update({
+    "C01": dict(
+        category="model_checking",
+        technique="explicit-state model checking of the implementation: BFS over operation histories with state de-duplication, every transition executed on the real engine and compared with a from-scratch reference evaluator",
+        text=("For every program of a curated set (one shape per mechanism: cut-off chains, conditional dependencies, firewalls, projections, "
+              "firewall chains/switches, unordered/concurrent reads, external inputs) and of a systematic universe (all 2-3 node programs over "
+              "the body/style alphabet), a breadth-first search visits every history of sessions (set/update/refresh, no-change writes, commit "
+              "or drop), queries and world changes up to depth 3 (quick) / 4-5 (thorough), de-duplicated on the engine's complete persisted "
+              "state. Every user value, every value handed to an executor and every SetInputResult is compared with the from-scratch model."),
+        design_ref="DESIGN.md 4/C01",
+        note=("Sequential histories under the default schedule; values in {0,1,2}; <=2 inputs + <=1 external input; in-memory storage engine. "
+              "State abstraction (timestamps compared only for equality with the current epoch) is argued in DESIGN.md. Known findings F10a/F10b "
+              "(stale values behind firewalls) are reported as KNOWN-FINDING, identified by history-shape triggers."),
+    ),
+    "C03": dict(
+        category="model_checking",
+        technique="explicit-state model checking of the implementation (same search as C01) with a justification judge applied to every executor activation",
+        text=("Same search as C01 (own run). Every executor activation in every visited transition is judged: justified iff the key was never "
+              "computed or a dependency of its previous run has a different from-scratch value; at most one activation per key between two "
+              "sessions; external inputs only on first demand or in refresh (and refresh re-runs exactly the executed ones); a repeated query "
+              "and a session without changes execute nothing."),
+        design_ref="DESIGN.md 4/C03",
+        note="As C01; cancellation-free histories. Over-execution never changes a value, so only this judge can see it.",
+    ),
+    "C02": dict(
+        category="exploration",
+        technique="stateless model checking: deviation-bounded exhaustive DFS over task schedules of the real engine (shuttle runtime, own scheduler)",
+        text=("Every schedule with <= d deviations (d=2 quick, 2-3 thorough) of 2-3 concurrent reader tasks on the real engine for fan-in "
+              "programs across the 32-element backward-edge tier (32/33/34 callers), diamonds with concurrent and unordered reads, firewall + "
+              "projections, projection diamonds and firewall chains, fresh and after an edit (repair, transitive-firewall repair and backward "
+              "projection run concurrently); then an edit and a sequential re-query of every node. Oracles per execution: values == from "
+              "scratch, no overlapping activations of a key, <= 1 activation per key and epoch, no deadlock/livelock, post-edit values == from "
+              "scratch (lost-invalidation detector)."),
+        design_ref="DESIGN.md 4/C02",
+        note=("<=3 tasks, <=d deviations, scheduling points at lock acquisitions, awaits, yields, storage set reads and selected atomics; true "
+              "parallelism on many workers, weak memory and the internals of scc/dashmap/tokio::sync (atomic steps) are outside the bound."),
+    ),
+})
+
 NOT_YET = {
 }
 
